@@ -123,6 +123,39 @@ def _resp_task(chunk):
     return acc
 
 
+def _lenient_task(chunk):
+    """Strings one character away from a valid vector: whatever the library *accepts* among them is
+    an accepted vector and its JSON must validate too (whether it should have been accepted is C04's
+    business)."""
+    acc = sweep.new_acc()
+    for fam, s in chunk:
+        try:
+            observe.cls_of(fam)(s)
+        except Exception:  # noqa
+            continue
+        acc["extra"]["accepted"] = acc["extra"].get("accepted", 0) + 1
+        visit_vec_unchecked(acc, fam, s)
+    return acc
+
+
+def visit_vec_unchecked(acc, fam, vec):
+    """visit_vec for strings the model may reject: no harness error on a raise."""
+    if T.classify(fam, vec) == "ACCEPT":
+        return visit_vec(acc, fam, vec)
+    try:
+        obj = observe.cls_of(fam)(vec)
+        ds = [obj.as_json(sort=s, minimal=m) for s, m in OPTS]
+    except Exception:  # noqa
+        return
+    acc["n"] += 1
+    for (s, m), d in zip(OPTS, ds):
+        probs, back = instance_checks(fam, vec, d)
+        for sig, text in probs:
+            sweep.bad(acc, {"what": "%s(%r) is accepted and .as_json(sort=%s, minimal=%s): %s" % (
+                T.CLASSNAME[fam], vec, s, m, text), "kind": sig["kind"], "family": fam, "input": vec,
+                "opts": [s, m], "signature": sig})
+
+
 def factor_text(name, fk):
     if "+" in name:
         return json.dumps([jsonval.ABSENT if t == "absent" else (json.loads(v) if t == "json" else v)
@@ -137,7 +170,17 @@ def run(ctx, res):
     blocks = jsonspace.blocks(ctx.tier)
     accs = product.run(ctx, blocks, visit, sweep.new_acc)
     resp = jsonspace.respellings(40 if ctx.thorough else 24)
-    accs += core.pool_map(_resp_task, [resp[i::16] for i in range(16)])
+    accs += core.task_map(_resp_task, [resp[i::16] for i in range(16)])
+    from . import c04
+    near = []
+    for seed in c04.seeds(1):
+        major = {"": 2, "CVSS:3.0/": 3, "CVSS:3.1/": 3, "CVSS:4.0/": 4}[c04.split_prefix(seed)[0]]
+        for t in c04.char_edits(seed):
+            near.append((T.family_of(major, t), t))      # the schema is chosen by the string's own prefix
+    accs_l = core.task_map(_lenient_task, [near[i::32] for i in range(32)])
+    res.coverage["strings_one_edit_from_valid_offered"] = len(near)
+    res.coverage["of_which_accepted_by_the_library"] = sum(a["extra"].get("accepted", 0) for a in accs_l)
+    accs += accs_l
     tot = sweep.merge(accs)
     factors, keysets = {}, {}
     for a in accs:
